@@ -97,6 +97,9 @@ HARNESSES = {
         H("c06_thread_threshold_reach", "vanilla", "C06.K.thread_threshold.reach", tier="thorough", timeout=7200,
           bounded="root decision node with three terminal children, target 3; strategy entries any f64 in [0,1]"),
     ],
+    "C09": [
+        H("ieee_cmp_flip", "data", "K.ieee_cmp_flip", complete=True),
+    ],
     "C10": [
         H("c10_multinomial_inverse_cdf", "multinomial", "C10.K.multinomial.inverse_cdf",
           bounded="1..4 weights, each any f64 in [0,1]; every 64-bit generator output"),
